@@ -2,6 +2,7 @@
 //! inputs and prints everything observable to a `.cases` file for comparison with the Coq model.
 mod common;
 mod encoders;
+mod equiv;
 mod gen;
 mod statics;
 mod store;
@@ -58,6 +59,7 @@ fn main() {
     let mut out = Out::default();
     match mode.as_str() {
         "store" => store::run(&mut rng, count, thorough, &mut out),
+        "equiv" => equiv::run(&mut rng, count, thorough, &equiv::Cfg::from_extra(&extra), &mut out),
         "static" => statics::run(&mut rng, count, thorough, &statics::Cfg::from_extra(&extra, 1), &mut out),
         "encoders" => encoders::run(&mut rng, count, thorough, &extra, &mut out),
         "static-multi" => statics::run(&mut rng, count, thorough, &statics::Cfg::from_extra(&extra, 3), &mut out),
